@@ -50,6 +50,40 @@ class _NotApplicable(Exception):
     pass
 
 
+class _root_logger_at_debug:
+    """(round 4, class 13) the root logger at DEBUG with a NullHandler (nothing is printed) while the operation runs;
+    ``core.evaluate`` disables logging up to WARNING around every cell, which is undone here and restored afterwards"""
+
+    def __init__(self, on):
+        self.on = on
+
+    def __enter__(self):
+        if self.on:
+            root = _logging.getLogger()
+            self.level, self.disabled = root.level, root.manager.disable
+            # (a module-level logging.warning() call installs a stderr handler on the root logger once and for all:
+            # set aside while the level is DEBUG, so that nothing is printed)
+            self.handlers = list(root.handlers)
+            for h in self.handlers:
+                root.removeHandler(h)
+            self.handler = _logging.NullHandler()
+            root.addHandler(self.handler)
+            root.setLevel(_logging.DEBUG)
+            _logging.disable(_logging.NOTSET)
+        return self
+
+    def __exit__(self, *exc):
+        if self.on:
+            root = _logging.getLogger()
+            for h in list(root.handlers):
+                root.removeHandler(h)
+            for h in self.handlers:
+                root.addHandler(h)
+            root.setLevel(self.level)
+            _logging.disable(self.disabled)
+        return False
+
+
 def _seeded(case, call):
     if isinstance(case, dict) and "np_seed" in case:
         def seeded():
@@ -101,7 +135,7 @@ def _edit_history(ctx, name, fn, case, result_of):
 
 
 def op(name: str, strategy, quick: int = 40, thorough: int = 600, inplace: Optional[str] = None, shards=(1, 2),
-       result_of=None):
+       result_of=None, rejected: bool = False):
     """Register cell ``C05/<name>``.  The decorated function maps (ctx, case) to (operands, call)."""
     deterministic = not any(name.endswith(x) or name == x for x in NONDETERMINISTIC)
     heavy = any(name.startswith(x) for x in HEAVY)
@@ -131,8 +165,12 @@ def op(name: str, strategy, quick: int = 40, thorough: int = 600, inplace: Optio
                 box["ret"] = inner2()
                 return box["ret"]
 
-            H.check_op(ctx, name, operands, call2, inplace=ip, result_of=result_of, again=bool(seq.get("again")),
-                       deterministic=deterministic)
+            debug = isinstance(case, dict) and case.get("_log") == "debug"
+            if debug:
+                ctx.label("root-logger-DEBUG")
+            with _root_logger_at_debug(debug):
+                H.check_op(ctx, name, operands, call2, inplace=ip, result_of=result_of, again=bool(seq.get("again")),
+                           deterministic=deterministic, rejected_nt=rejected)
             if post is not None and "ret" in box:
                 post(ctx, box["ret"])
             if seq.get("edit") and ip is None and deterministic and "ret" in box and not any(
@@ -346,3 +384,31 @@ def as_form(values, form):
 
 
 deepcopy = _copy.deepcopy
+
+
+# --------------------------------------------------------------------------
+# (round 4, class 11) how the caller presents the arrays it hands to a constructor
+# --------------------------------------------------------------------------
+
+VALUE_FORMS = (None, None, None, "strided", "neg-strided", "readonly", "readonly-F", "float32", "int64", "int32")
+INDEX_FORMS = (None, None, None, "int32", "uint8", "uint16", "uint64", "readonly", "strided", "neg-strided")
+
+
+def d_present(draw, values=(), indices=()):
+    """case entry ``_present``: operand name -> presentation"""
+    out = {k: draw(st.sampled_from(VALUE_FORMS)) for k in values}
+    out.update({k: draw(st.sampled_from(INDEX_FORMS)) for k in indices})
+    return out
+
+
+def presented(ctx, c, key, a):
+    """the array ``a`` (operand ``key`` of a constructor cell) as ``c["_present"][key]`` asks"""
+    form = (c.get("_present") or {}).get(key)
+    if form is None:
+        return a
+    if form.startswith("uint") and isinstance(a, np.ndarray) and a.dtype.kind in "iu":
+        b = a.astype(np.dtype(form)) if a.size == 0 or (a.min() >= 0 and a.max() < 256) else a
+    else:
+        b = CS.present(a, form)
+    ctx.label(f"{key}-presented-{form}")
+    return b
